@@ -38,6 +38,14 @@ def _wk(p):
     return [p.year, p.week_of_year, p.day_of_week]
 
 
+def _acc(fn):
+    try:
+        fn()
+        return True
+    except ValueError:
+        return False
+
+
 def _err(fn):
     try:
         return fn()
@@ -72,6 +80,13 @@ def _probes():
         ("week_start", lambda: list(D.get_calendar_date_week_date_start(2005))),
         ("validate_feb30", lambda: _err(lambda: str(D.TimePoint(year=2001, month_of_year=2, day_of_month=30)))),
         ("validate_day366", lambda: _err(lambda: str(D.TimePoint(year=2001, day_of_year=366)))),
+        # year-less truncated designators are bounded by the mode's longest month / year / week count
+        ("validate_truncated", lambda: [_acc(lambda: D.TimePoint(truncated=True, day_of_month=31)),
+                                        _acc(lambda: D.TimePoint(truncated=True, day_of_month=30)),
+                                        _acc(lambda: D.TimePoint(truncated=True, day_of_year=366)),
+                                        _acc(lambda: D.TimePoint(truncated=True, day_of_year=361)),
+                                        _acc(lambda: D.TimePoint(truncated=True, week_of_year=53, day_of_week=1)),
+                                        _acc(lambda: D.TimePoint(truncated=True, week_of_year=52, day_of_week=1))]),
         ("add_month", lambda: str(_tp("2001-01-30T00Z") + D.Duration(months=1))),
         ("add_hours", lambda: str(_tp("2001-02-28T23Z") + D.Duration(hours=2))),
         ("subtract", lambda: [str(_tp("2002-001T00Z") - _tp("2001-001T00Z")), str(_tp("2005-03-01T06:30Z") - _tp("2003-03-01T06:30Z")),
